@@ -169,3 +169,6 @@ def origin_kinds_and_forwarding(fl: int, ci: int, cred: bool, ki: int, pi: int, 
 
 def _kinds(fl, ci, cred, ki, pi, fi, with_origin):
     return _origin_policy(fl, ci, cred, ki, pi, '', fi, with_origin)
+
+
+from vf.validate.stubs import ALL as VALIDATE  # noqa: E402  (stub-vs-real conformance, run before the obligations)
